@@ -169,6 +169,23 @@ class HGen:
             out.append((version, routes, ops, 30))
         return out
 
+    def surplus_action(self):
+        """a CALLRESULT frame with a surplus fourth element naming ANOTHER action whose response schema the payload meets:
+        the reply is judged by the schema of the request it answers, whatever the peer appends"""
+        out = []
+        for version in ("1.6", "2.0.1"):
+            good = {"type": "Hard" if version == "1.6" else "Immediate"}
+            ops = [("start", 0, "s0", "Reset", good, False, False, True),
+                   ("inbound", json.dumps([3, "s0", {"currentTime": "2024-01-01T00:00:00Z"}, "Heartbeat"])), ("tick", 1),
+                   ("start", 1, "s1", "Heartbeat", {}, False, False, True),
+                   ("inbound", json.dumps([3, "s1", {"status": "Accepted"}, "Reset"])), ("tick", 1),
+                   ("start", 2, "s2", "Reset", good, False, False, True),
+                   ("inbound", json.dumps([3, "s2", {"status": "Accepted"}, "Heartbeat"])), ("tick", 1),
+                   ("start", 3, "s3", "Reset", good, False, True, True),
+                   ("inbound", json.dumps([3, "s3", {"currentTime": "t"}, "Heartbeat"])), ("tick", 1)]
+            out.append((version, [], ops, 30))
+        return out
+
     def reply_burst(self, n):
         """a caller is waiting; the reader finds n stale replies and then the matching one all buffered and routes
         them back to back; before that, n unsolicited replies while nobody waits"""
@@ -239,7 +256,7 @@ class HGen:
             hs.append(self.history(self.rng.choice([6, 12, 25, 40]) if self.tier == "quick" else self.rng.choice([10, 40, 120]), timeout))
         hs.append(self.stale_flood(300 if self.tier == "quick" else 3000))
         # the scenario families that C04/C05/C16 need come first (those checks take a prefix), then the random histories
-        return self.skip_overlap() + self.skip_then_validate() + self.route_skip_does_not_leak() + hs + self.special_ids() + self.error_codes() + self.reply_burst(1100 if self.tier == "quick" else 2600)
+        return self.skip_overlap() + self.skip_then_validate() + self.route_skip_does_not_leak() + self.surplus_action() + hs + self.special_ids() + self.error_codes() + self.reply_burst(1100 if self.tier == "quick" else 2600)
 
 
 def run_histories(rep, hs, tag, prop_id, oracle, view, shard_size=8, async_validation=False):
